@@ -78,3 +78,25 @@ def invalid_for(version):
 def events(version, names):
     table = lines(version)
     return [rx(table[n]) for n in names if n in table]
+
+
+def remap_nodes(evs, node_map):
+    """The same events with node ids renamed (boundary ids: the highest valid id 254, its neighbour 253). Node ids enter
+    the library through dict keys, max() and a few comparisons with constants - a renamed alphabet reaches the latter."""
+    def line(text):
+        head = text.split(";", 1)
+        if len(head) == 2 and head[0].isdigit() and int(head[0]) in node_map:
+            return str(node_map[int(head[0])]) + ";" + head[1]
+        return text
+
+    out = []
+    for ev in evs:
+        if ev and ev[0] == "rx":
+            out.append(("rx", line(ev[1])) + tuple(ev[2:]))
+        elif ev and ev[0] == "rx2":
+            out.append(("rx2", line(ev[1]), line(ev[2])))
+        elif ev and ev[0] in ("set", "fw") and isinstance(ev[1], int):
+            out.append((ev[0], node_map.get(ev[1], ev[1])) + tuple(ev[2:]))
+        else:
+            out.append(ev)
+    return out
